@@ -641,6 +641,13 @@ func (sc *specCtx) evalCall(x *ast.CallExpr) Value {
 			sc.errorf(x, "cong modulus must be a positive constant")
 		}
 		return Eq(Mod(Sub(a, b), m.k), ConstI(0))
+	case "feq":
+		// feq(a, b, m): a mod m == b mod m
+		a, b, m := sc.evalTerm(x.Args[0]), sc.evalTerm(x.Args[1]), sc.evalTerm(x.Args[2])
+		if m.op != OConst || m.k.Sign() <= 0 {
+			sc.errorf(x, "feq modulus must be a positive constant")
+		}
+		return Eq(Mod(a, m.k), Mod(b, m.k))
 	case "mag":
 		v := sc.eval(x.Args[0])
 		cid, ok := x.Args[1].(*ast.Ident)
